@@ -718,3 +718,144 @@ def _retagged(o, prop, name):
     o.prop = prop
     o.name = name
     return o
+
+
+# ======================================================================================
+# C08: lost wake-up -- the real waiter coroutine (MIR) against tokio::sync::Notify's documented
+# contract, the grant landing at every call boundary of the waiter
+# ======================================================================================
+
+
+def c08_lost_wakeup(env):
+    o = Obligation("c08_lost_wakeup", "C08")
+    o.desc = "a send waiting for credit completes once sufficient credit has been granted, wherever the grant (flow applied + notify_waiters) lands relative to the waiter: before its first poll, at every call boundary inside the poll (including between the failed credit check and the creation of the wait future), or after it returned Pending"
+    fn = env.fn(r"^state::<impl at [^>]*>::consume::\{closure#0\}$")
+    inner = env.fn(r"^consume_link_credit$")
+    o.functions = [fn.name, inner.name]
+    o.bounds = ["one waiter, one grant; the grant is placed at each call terminator of the waiter's first poll (one symbolic run per position), then the waiter is polled once more; credit granted 1..2^32-1, count 1"]
+    o.assumes = [
+        "tokio::sync::Notify per its documented contract: notify_waiters() wakes exactly the Notified futures created before the call (a Notified captures the notify_waiters call counter when created; polling it is Ready iff the counter has moved)",
+        "parking_lot RwLock modelled as uncontended (write() yields access to the protected state)",
+        "the granting side is Producer::produce = update the flow state, then notify_waiters (its arithmetic is C08's Kani harness)",
+    ]
+    LC = env.fidx("LinkFlowStateInner", "link_credit")
+    credit = BV32("grant.link_credit")
+    hyp0 = [z3.UGE(credit, 1)]
+
+    def grant(st):
+        w = st.locals["@world"]
+        fs = st.locals["@flowstate"]
+        fs[LC] = credit
+        w[0] = w[0] + 1
+        w[1] = True
+
+    def mk_executor(K):
+        ex = env.executor(inline={r"^consume_link_credit$": r"^consume_link_credit$"}, max_visits=4)
+
+        def on_call(ex_, st, callee, depth):
+            if depth != 0:
+                return  # inside consume_link_credit the write lock is held: the granter cannot run
+            w = st.locals["@world"]
+            w[2] = w[2] + 1
+            if callee.endswith("schedule_point"):
+                w[3] = w[2]
+            if w[2] == K and not w[1]:
+                grant(st)
+
+        ex.on_call = on_call
+        ref = lambda name: (lambda ex_, st, callee, args, argvals, dty: mir.Ref((name,), True))  # noqa: E731
+
+        def notified(ex_, st, callee, args, argvals, dty):
+            a = mir.Agg("Notified")
+            a[0] = st.locals["@world"][0]
+            return a
+
+        def poll_notified(ex_, st, callee, args, argvals, dty):
+            pin = argvals[0]
+            tgt = pin[0] if isinstance(pin, mir.Agg) else pin
+            cont, key = ex_.resolve(st, list(tgt.path))
+            created = cont[key][0]
+            r = mir.Agg("Poll")
+            r["#d"] = z3.If(created != st.locals["@world"][0], z3.BitVecVal(0, 64), z3.BitVecVal(1, 64))
+            return r
+
+        def pin_new(ex_, st, callee, args, argvals, dty):
+            a = mir.Agg("Pin")
+            a[0] = argvals[0]
+            return a
+
+        ex.models = [
+            (r"Consumer::<.*>::state$", ref("@arc")),
+            (r"<Arc<LinkFlowState<.*>> as Deref>::deref$", ref("@lfs")),
+            (r"RwLock::<.*>::write$", lambda ex_, st, callee, args, argvals, dty: mir.Agg("guard")),
+            (r"RwLockWriteGuard<.*> as Deref(Mut)?>::deref(_mut)?$", ref("@flowstate")),
+            (r"<Arc<Notify> as Deref>::deref$", ref("@notify")),
+            (r"^Notify::notified$", notified),
+            (r"IntoFuture>::into_future$", lambda ex_, st, callee, args, argvals, dty: argvals[0]),
+            (r"^Pin::<.*>::new_unchecked$", pin_new),
+            (r"<Notified<'_> as .*Future>::poll$", poll_notified),
+            (r"schedule_point$", lambda ex_, st, callee, args, argvals, dty: mir.Agg("unit")),
+        ]
+        return ex
+
+    def initial():
+        fs = mir.Agg("flowstate")
+        fs[LC] = z3.BitVecVal(0, 32)  # the sender has no credit: it has to wait
+        fs[env.fidx("LinkFlowStateInner", "delivery_count")] = BV32("pre.delivery_count")
+        world = mir.Agg("world")
+        world[0] = z3.BitVecVal(0, 32)  # notify_waiters call counter
+        world[1] = False  # granted yet?
+        world[2] = 0  # call-boundary counter (the waiter's own calls; the locked section is atomic)
+        world[3] = None  # index of the schedule_point boundary
+        pin, cor = coroutine_start(env, "@consumer", {1: z3.BitVecVal(1, 32)})
+        return {"_1": pin, "@cor": cor, "@consumer": mir.Agg("consumer"), "@flowstate": fs, "@world": world, "@lfs": mir.Agg("lfs"), "@arc": mir.Agg("arc"), "@notify": mir.Agg("notify")}
+
+    # how many call boundaries does the first poll have (without any grant)?
+    ex = mk_executor(-1)
+    probe = ex.run(fn, initial())
+    ncalls = max(p.locals["@world"][2] for p in probe)
+    sched_idx = next((p.locals["@world"][3] for p in probe if p.locals["@world"][3] is not None), None)
+    total = 0
+    for K in range(0, ncalls + 2):
+        ex = mk_executor(K)
+        init = initial()
+        if K == 0:
+            st0 = mir.Path(cond=[], locals=init, calls=[], obligations=[])
+            grant(st0)
+        first = ex.run(fn, init)
+        for i, p in enumerate(first):
+            if p.end != "return":
+                continue
+            ready1 = z3.simplify(p.ret["#d"] == 0)
+            if z3.is_true(ready1):
+                # completed in the first poll: must have had credit
+                total += 1
+                continue
+            # Pending (or symbolic): the grant has happened by now, or happens now (after the poll)
+            loc = ex.clone_locals(p.locals)
+            st1 = mir.Path(cond=list(p.cond), locals=loc, calls=[], obligations=[])
+            if not loc["@world"][1]:
+                grant(st1)
+            loc["@world"][2] = -10**6  # no further grant
+            pin = mir.Agg("pin")
+            pin[0] = mir.Ref(("@cor",), True)
+            loc["_1"] = pin
+            second = ex.run(fn, loc, cond=list(p.cond))
+            for j, q in enumerate(second):
+                if q.end != "return":
+                    continue
+                total += 1
+                where = "before the first poll" if K == 0 else (f"at call boundary {K} of the first poll" + (" (the cfg schedule_point: between the failed credit check and the creation of the wait future)" if K == sched_idx else "")) if K <= ncalls else "after the first poll returned Pending"
+                pos = 0 if K == 0 else (1 if K == sched_idx else (2 if K > ncalls else None))
+
+                def replay(m, pos=pos):
+                    if pos is None:
+                        raise RuntimeError("this grant position has no native hook")
+                    return f"wakeup {pos} {model_value(m, credit)}", (lambda js: js.get("panic") or not js["second_ready"])
+
+                o.prove(f"grant {where}: second poll completes [poll1 path{i}, poll2 path{j}]", ex.assumptions + hyp0 + q.cond, q.ret["#d"] == 0, replay=replay)
+    o.cover("schedules explored", [z3.BoolVal(total > 0 and sched_idx is not None)])
+    return [o]
+
+
+REGISTRY.setdefault("C08", []).append(c08_lost_wakeup)
